@@ -63,9 +63,10 @@ def run(ctx):
     pre_list = list(PRECOND)
     if not ctx.quick:
         pre_list.append(("flow", {"fit_kwargs": {"n_epochs": 3}}, {"bounds": True}))
+    FLOW_QUICK = ("flow", {"fit_kwargs": {"n_epochs": 1}}, {"bounds": True})      # one flow-preconditioned sampler in the quick tier too
     reps = ctx.scale(1, 4)
     for kind in kinds:
-        for (pre, pkw, opt) in pre_list:
+        for (pre, pkw, opt) in (pre_list + ([FLOW_QUICK] if ctx.quick and kind == "emcee_smc" else [])):
             for rep in range(reps):
                 # namespaces in rotation (every sampler class meets every namespace it supports in every run)
                 rot = ctx.extra["ns_rotation"] = ctx.extra.get("ns_rotation", 0) + 1
